@@ -485,6 +485,9 @@ func htreeCases(r *vk.Run, width int) error {
 				c = 1
 			}
 		}()
+		if c != 1 {
+			r.Finding(fmt.Sprintf("htree.InclusionProof(%d) on a tree of width %d did not return an error (outcome %d: 0 = a proof, 2 = panic)", i, width, c))
+		}
 		r.Case(fmt.Sprintf("CHtEdge %s (%d)%%Z %d", digList(ds), i, c),
 			map[string]any{"kind": "htedge", "width": width, "i": i, "class": c}, "htree/edge", true)
 	}
